@@ -16,16 +16,20 @@ SOURCES = ["src/allmydata/codec.py", "src/allmydata/immutable/encode.py",
 DESIGN_REF = "DESIGN.md §2 C36"
 TECHNIQUE = ("Lean 4 theorems over an executable model of CRSEncoder/CRSDecoder and of the immutable and mutable "
              "segment padding / chopping / truncation / trimming code, parametric in an abstract code with the MDS law "
-             "as explicit hypothesis; differential correspondence (sizes, exceptions, every produced block byte, decoded "
+             "as explicit hypothesis, and that law proved for the model of zfec's code (Field instance on GF(256) + "
+             "Lagrange interpolation, single Mathlib modules); differential correspondence (sizes, exceptions, every produced block byte, decoded "
              "segment) of the model instantiated with a Lean transcription of zfec's GF(2^8) Reed-Solomon code against "
              "the real classes")
 LEVEL_TEXT = ("any_k_blocks_decode (bare pipeline), immutable_any_k_blocks_decode and mutable_any_k_blocks_decode proved "
               "in Lean for every k <= n <= 256, every segment length (tail padding included), every duplicate-free "
               "supply of >= k (mutable; immutable: exactly k, as CRSDecoder demands) genuine blocks in any order, given "
-              "the MDS hypothesis on the code; MDS itself is proved for replication (all n), identity (all k) and "
-              "2-of-3 XOR parity, and is a named, sampled assumption (RS256_MDS) for zfec's code.")
-LEVEL_NOTE = ("Lean kernel + standard axioms; the repo's arithmetic/plumbing is proved, zfec's MDS property is assumed "
-              "(sampled: all k-subsets for N<=7, seeded subsets up to N=256, byte-exact against the Lean transcription).")
+              "the MDS hypothesis on the code; MDS itself is proved for replication (all n), identity (all k), "
+              "2-of-3 XOR parity and (rs256_mds, rs256_scalar_identity, rs256_generator_is_vandermonde_systematic) for "
+              "the model of zfec's GF(2^8) code for every 1 <= k <= n <= 256, so zfec_code_any_k_blocks_decode and the "
+              "*_rs256 corollaries carry no hypothesis on the code.")
+LEVEL_NOTE = ("Lean kernel + standard axioms; the repo's arithmetic/plumbing and the MDS law of the modelled code are proved; "
+              "zfec's C implementation is tied to the modelled generator by correspondence only (all k-subsets for N<=7, "
+              "seeded subsets up to N=256, byte-exact blocks and encoding/decoding matrices).")
 RULE = ("one case = one driver line (math / sizes / codec / imm / mut / zdec / matrix / mask) evaluated on the real code and on the model, "
         "or one whole-path read (e2e: one k-subset of the shares of a CHK/SDMF/MDMF file on the in-process grid, monitor only); "
         "distinct = distinct lines; non-trivial = well-formed round-trip case in which a secondary block (id >= k) is used "
@@ -43,9 +47,9 @@ TRUSTED = [
     "hidden by renaming the share files on the servers' disks",
 ]
 ASSUMPTIONS = [
-    "zfec (C extension outside /repo) is MDS for 1 <= k <= n <= 256: hypothesis RS256_MDS in Lean — SAMPLING OF AN "
-    "ASSUMPTION, not a proof: every k-subset for N <= 7, seeded subsets/orders up to N = 256, each case also compared "
-    "byte-exactly with the Lean transcription",
+    "zfec (C extension outside /repo) computes the generator that the Lean model rs256 specifies (V * V_top^-1 over "
+    "GF(2^8)/0x11d): RS256_MDS is a theorem about that model; the C code is tied to it by sampling only: every k-subset "
+    "for N <= 7, seeded subsets/orders up to N = 256, each case compared byte-exactly with the model",
     "supplied blocks come from a dict keyed by share number (distinct ids) — zfec.Decoder.decode loops forever on "
     "duplicate primary ids (observed: Decoder(3,5).decode(blocks,[0,1,1])), never exercised by the repo's callers",
     "encryption (AES-CTR) of the mutable path is outside the model: the model receives the crypttext recomputed from the "
@@ -818,4 +822,4 @@ def run(ctx):
     b.flush("zfec encoding/decoding matrices vs encMatrix/decMatrix; idsOfMask")
     # 8. whole-path reads from exactly k shares (monitor only)
     e2e_random(ctx)
-    ctx.note("zfec MDS is an assumption: sampled, not proved (see ASSUMPTIONS)")
+    ctx.note("MDS is proved for the model of zfec's code; zfec's C implementation is tied to that model by sampling (see ASSUMPTIONS)")
